@@ -49,41 +49,46 @@ Theorem C02_rt_shift_helpers : forall t f a b, in_range t a -> in_range I64 b ->
   (In (t, f) shl_table -> ccall Gnu f [a; b] = Oval (wrap t (exact_shl t a b))) /\
   (In (t, f) shr_table -> wf_ity t -> ccall Gnu f [a; b] = Oval (wrap t (exact_shr t a b))) /\
   (In (t, f) asr_table -> ccall Gnu f [a; b] = Oval (wrap t (exact_asr t a b))).
-Proof.
-  intros t f a b Ha Hb. repeat split; intros.
-  - apply shl_helper_correct; assumption.
-  - apply shr_helper_correct; assumption.
-  - apply asr_helper_correct; assumption.
-Qed.
+Proof. exact shift_helpers_correct. Qed.
 Print Assumptions C02_rt_shift_helpers.
 
-(* ... hence (helpers take the count as int64 since 2cffa35) the operators are modular for every
-   count representable in int64, i.e. for every count type except uint64/usize values >= 2^63 *)
-Theorem C02_rt_is_modular_shifts : forall lt rt a b,
+(* the full statement for << >> >>> (Proofs.rt_shifts_modular: every count of the right operand's
+   type) is FALSE: a uint64/usize count >= 2^63 is negative once converted to the helper's int64
+   parameter: uint64(82) << uint64(2^64-1) gives 41 *)
+Theorem C02_rt_is_modular_shifts_refuted : ~ rt_shifts_modular.
+Proof. exact rt_shifts_modular_refuted. Qed.
+Print Assumptions C02_rt_is_modular_shifts_refuted.
+
+(* ... true for every count representable in int64 (every count type except uint64/usize >= 2^63) *)
+Theorem C02_rt_is_modular_shifts_partial : forall lt rt a b,
   wf_ity lt -> in_range lt a -> in_range I64 b ->
   rt_bin Bshl lt rt a b = Rval lt (wrap lt (exact_shl lt a b)) /\
   rt_bin Bshr lt rt a b = Rval lt (wrap lt (exact_shr lt a b)) /\
   rt_bin Basr lt rt a b = Rval lt (wrap lt (exact_asr lt a b)).
-Proof.
-  intros. repeat split; [apply rt_shl_partial | apply rt_shr_partial | apply rt_asr_partial]; assumption.
-Qed.
-Print Assumptions C02_rt_is_modular_shifts.
+Proof. exact rt_shifts_modular_partial. Qed.
+Print Assumptions C02_rt_is_modular_shifts_partial.
 
-(* still false: a uint64 count >= 2^63 is negative once converted to the helper's int64 parameter *)
-Theorem C02_rt_shift_uint64_count_refuted :
-  rt_bin Bshl U64 U64 82 18446744073709551615 = Rval U64 41 /\
-  fold_bin Bshl U64 U64 82 18446744073709551615 false false = Fval U64 0 /\
-  exact_bin Bshl U64 82 18446744073709551615 = Some 0.
-Proof. exact rt_shift_uint64_count. Qed.
-Print Assumptions C02_rt_shift_uint64_count_refuted.
+(* rt_bin is the value of an operator result once STORED (or passed): consumed directly by another
+   operator, a result of a type narrower than C int is not reduced to its type.  Full statement
+   Proofs.rt_context_independent (nested = stored first) is FALSE: int8 127 + 1 > 0 is true nested,
+   false stored; uint8 (200 + 100) // 2 is 150 nested, 22 stored *)
+Theorem C02_rt_context_independent_refuted : ~ rt_context_independent.
+Proof. exact rt_context_independent_refuted. Qed.
+Print Assumptions C02_rt_context_independent_refuted.
+
+(* ... true when both operators are + - * on operands of one signedness at least as wide as int *)
+Theorem C02_rt_context_independent_partial : forall o1 o2 t1 t2 t3 a b c, wf_ity t1 -> wf_ity t2 ->
+  (o1 = Badd \/ o1 = Bsub \/ o1 = Bmul) -> 32 <= bits t1 -> 32 <= bits t2 -> mixed t1 t2 = false ->
+  (o2 = Badd \/ o2 = Bsub \/ o2 = Bmul) -> 32 <= bits t3 -> mixed (promote_type t1 t2) t3 = false -> wf_ity t3 ->
+  rt_nested_l o1 o2 t1 t2 t3 a b c = rt_stored_l o1 o2 t1 t2 t3 a b c.
+Proof. exact rt_context_independent_partial. Qed.
+Print Assumptions C02_rt_context_independent_partial.
 
 (* comparisons: exact on both sides, for all types (mixed signedness included) and values *)
 Theorem C02_comparisons_agree : forall o lt rt a b, wf_ity lt -> wf_ity rt -> is_cmpop o = true ->
   in_range lt a -> in_range rt b ->
   rt_bin o lt rt a b = Rbool (cmp_value o a b) /\ fold_bin o lt rt a b false false = Fbool (cmp_value o a b).
-Proof.
-  intros. split; [apply rt_cmp_exact | apply fold_cmp_exact]; assumption.
-Qed.
+Proof. exact comparisons_agree. Qed.
 Print Assumptions C02_comparisons_agree.
 
 (* fold_agrees (Proofs.fold_agrees_at, full strength) for + - *: for typed constant operands
@@ -93,23 +98,24 @@ Print Assumptions C02_comparisons_agree.
    bakes exactly what the run time computes.  (For the other operators the same statement is
    checked by the oracle on every run; proved pieces: C02_fold_agrees_partial for // %,
    C02_comparisons_agree.) *)
-Theorem C02_fold_agrees_arith : forall o lt rt a b, wf_ity lt -> wf_ity rt ->
+Theorem C02_fold_agrees_partial_arith : forall o lt rt a b, wf_ity lt -> wf_ity rt ->
   (o = Badd \/ o = Bsub \/ o = Bmul) -> fold_agrees_at o lt rt a b.
 Proof. exact fold_agrees_arith. Qed.
-Print Assumptions C02_fold_agrees_arith.
+Print Assumptions C02_fold_agrees_partial_arith.
 
-(* fold_agrees_partial: + - * // % on typed constants fold to the exact result carried by a
-   type that holds it whenever int64 (or uint64 for unsigned, non-negative) can hold it *)
-Theorem C02_fold_agrees_partial : forall o lt rt a b e, wf_ity lt -> wf_ity rt -> exact_arith o = true ->
+(* fold exactness for + - * // %, typed operands AND untyped literals on either side (lu / ru:
+   types.promote_type_for_attrs): the fold is the exact result carried by a type that holds it
+   whenever int64 (or uint64 for an unsigned operation type and a non-negative result) can hold it *)
+Theorem C02_fold_exact_partial : forall o lt rt a b lu ru e, wf_ity lt -> wf_ity rt -> exact_arith o = true ->
   exact_bin o lt a b = Some e ->
-  (in_range I64 e \/ (sgn (promote_type lt rt) = false /\ 0 <= e /\ in_range U64 e)) ->
-  exists t', fold_bin o lt rt a b false false = Fval t' e /\ in_range t' e /\ baked t' e = e.
-Proof. exact fold_agrees_partial. Qed.
-Print Assumptions C02_fold_agrees_partial.
+  (in_range I64 e \/ (sgn (arith_op_type lt rt a b lu ru) = false /\ 0 <= e /\ in_range U64 e)) ->
+  exists t', fold_bin o lt rt a b lu ru = Fval t' e /\ in_range t' e /\ baked t' e = e.
+Proof. exact fold_exact_any_flags. Qed.
+Print Assumptions C02_fold_exact_partial.
 
 (* wrap_value (59c538f) is the two's complement reduction of every integer *)
 Theorem C02_wrap_value_correct : forall t v, wf_ity t -> wrap_value t v = wrap t v /\ in_range t (wrap_value t v).
-Proof. intros t v Ht. split; [apply wrap_value_correct | apply wrap_value_range]; exact Ht. Qed.
+Proof. exact wrap_value_correct_range. Qed.
 Print Assumptions C02_wrap_value_correct.
 
 (* add_scalar_literal: what is printed for a constant is its reduction into the type *)
